@@ -3,18 +3,13 @@ Abstraction between the values of the translated Go code (KlogV/Gen/GoSrc.lean) 
 model (KlogV/Model/Values.lean), and the reading of a `G` result as the model's three-way result.  Core Lean only.
 -/
 import KlogV.Gen.GoSrc
+import KlogV.GoSem.AbsBase
 import KlogV.Model.Values
 import KlogV.Model.Commands
 import KlogV.Model.ConfigFile
 import KlogV.Lemmas.RegexModel4
 namespace KlogV
 open KlogV.Go
-
-/-- A `G` result as the model sees it: the text of an error message is dropped (no property depends on the wording). -/
-def Go.G.res {α} : G α → Res α
-  | .ok a => .ok a
-  | .error (.err _) => .err
-  | .error .panic => .panic
 
 -- `optRes` (Model/Commands.lean) reads the model's `Option` (Go's `(T, error)`) as a three-way result.
 
